@@ -506,6 +506,19 @@ func ReplayCase(v interface{}) (sub string, ok bool) {
 	return rec.Sub, json.Unmarshal(rec.Case, v) == nil
 }
 
+// Failed reports whether a violation of another sub-check was already recorded in this process
+// (checks whose fixtures are shared may stop early instead of crawling through timeouts).
+func (s *Sink) Failed(exceptSub string) bool {
+	s.mu.Lock()
+	defer s.mu.Unlock()
+	for _, v := range s.violations {
+		if v.Sub != exceptSub {
+			return true
+		}
+	}
+	return false
+}
+
 // FindingKey returns the known-finding key the driver asked to re-execute.
 func FindingKey() string { return os.Getenv("VERIF_FINDING") }
 
